@@ -34,6 +34,7 @@ def base_corpus(tier, seed):
     defs = corpus.shape_corpus()
     n = 40 if tier == "quick" else 600
     defs += corpus.random_corpus(seed, n)
+    defs += corpus.class_shape_corpus(tier, seed)
     return defs
 
 
